@@ -257,6 +257,10 @@ func runProperty(p *vc.Prog, id string, claims *PropClaim, known []KnownFinding,
 			out.known = append(out.known, fmt.Sprintf("KNOWN-FINDING: property=%s %s::%s: %s", id, shortName(fn), clauseName(r.O.Name), k.Text))
 			continue
 		}
+		if r.R.Status == "error" && len(out.genErrors[fn]) > 0 {
+			// a query the solver rejects because generation of this function failed: reported once, as the generator error
+			continue
+		}
 		out.violations = append(out.violations, violation{Func: fn, Obl: r.O.Name, Status: r.R.Status, Output: r.R.Output, Query: r.O.Query(smt.Prelude), Clause: r.O.Clause, SrcLine: r.O.SrcLine,
 			Why: "obligation not discharged (" + r.R.Status + ")"})
 	}
